@@ -174,16 +174,20 @@ CLAIMS = {
              "O_NOFOLLOW|O_DIRECTORY (C03_mkdir_all_targets); a successful loop is, component by component, mkdirat answered success "
              "*or EEXIST* (the race is tolerated), then openat(cur, part, O_NOFOLLOW|O_DIRECTORY|O_CLOEXEC|O_NOCTTY) answered with the next "
              "directory, then close(cur), and the returned handle is the last directory opened that way (C12_loop_chain, for all "
-             "environments incl. racing callers). Tie and oracle: mkdir_all on generated trees/paths (existing prefixes through links, "
+             "environments incl. racing callers); rely/guarantee convergence (C12_converges, Proofs/Rely.lean): against a mutable "
+             "kernel state with environment steps interleaved before every system call that only add directories (any number of other "
+             "mkdir_all callers), the creating loop succeeds, returns the directory reached by walking the components in the final "
+             "state, and the whole history incl. its own steps only added directories, so N callers compose. Tie and oracle: mkdir_all on generated trees/paths (existing prefixes through links, "
              "'..' in the existing part, dangling links, non-directories in the way) on both backends, replayed through the model; "
              "exact-effect oracle: nothing removed or modified, additions are directories forming one chain that starts in an "
              "existing directory and ends at the returned handle, the handle is the live kernel's in-root resolution of the path, "
              "created modes = requested & ~umask, a failure leaves at most a prefix chain. Racing-threads suite: 2-6 threads with "
              "seeded yields at syscall boundaries create the same/overlapping chains; all must succeed with handles to the directories "
              "at those paths and the tree must be exactly old + chains; every thread's transcript is replayed through the model.",
-        note="theorem partial: convergence of racing callers (all succeed) is proved only in the form 'EEXIST is tolerated and the walk "
-             "continues through whatever directory is there'; progress and the whole-tree frame condition are decided by the racing and "
-             "effect suites on the real filesystem. Finding F20 (mkdir_all(\"\") returned the root) was found by the effect oracle and "
+        note="The convergence theorem covers the creating loop from the partial-lookup handle (precondition Pre: what exists of the "
+             "chain is directories); the composition with the partial lookup under races and the whole-tree frame condition on the real "
+             "filesystem are decided by the racing and effect suites. The mutable kernel state KS (mkdirat/openat/close answers and "
+             "effects) is a trusted statement of kernel behaviour like Kernel/World. Finding F20 (mkdir_all(\"\") returned the root) was found by the effect oracle and "
              "repaired. setgid inheritance is not exercised (generated trees have no setgid directories).",
         technique="Lean 4 proof (run inversion of the creating loop for all environments; target discipline) + exact-effect differential + racing-threads replay",
         ref="DESIGN.md §8 C12"),
